@@ -11,7 +11,7 @@
    Shapes: the circuit size is a Python int (Z) in the generated code and a nat in the model: the links read it through
    Z.to_nat (a size < 1 raises ValueError on both sides). *)
 From QV Require Import Translate.PyPrelude Translate.PyPrelude_proofs Translate.C15Aux.
-From QV Require Import Jssp.DomainWall Jssp.Encoder Jssp.Energy Jssp.Valid_proofs Jssp.Encoder_proofs Jssp.Decoded_proofs Jssp.Grouping_proofs.
+From QV Require Import Jssp.DomainWall Jssp.Encoder Jssp.Energy Jssp.Valid_proofs Jssp.Encoder_proofs Jssp.Decoded_proofs Jssp.Grouping_proofs Jssp.Instance.
 From QVGen Require Import C01Gen.
 Open Scope Z_scope.
 
@@ -1238,3 +1238,22 @@ Proof.
   apply (link_Enc_prepare_hamiltonian_composed I L e P H hs He Hnd (ids_match_prepared I L e He Hnd) (counts_agree_prepared e Hnd) HH).
 Qed.
 Print Assumptions link_Enc_prepare_hamiltonian.
+
+(* the hypotheses of link_Enc_prepare_hamiltonian are satisfiable: the corpus instance retry-after-short-limit (j1 = [(m1,1)],
+   j2 = [(m1,3),(m2,1)]) at limit 5 with the default penalties — prepared, pairwise different operations, the model's Hamiltonian exists *)
+Definition ex_inst : instance :=
+  mkInst "inst" ["m1"; "m2"]%string
+    [mkJob "j1" [mkOp "a" "j1" "m1" 1]; mkJob "j2" [mkOp "b" "j2" "m1" 3; mkOp "c" "j2" "m2" 1]]%string.
+Definition ex_pen : penalties := mkPen 300 100 100 100 0.
+
+Example link_Enc_prepare_hamiltonian_nonvacuous :
+  exists e H, prepare_encoding ex_inst 5 = Ok e /\ NoDup (map v_op (e_vars e)) /\ hamiltonian_of false ex_pen 5 e = Ok H
+              /\ (6 = e_nq e)%nat.
+Proof.
+  destruct (prepare_encoding ex_inst 5) as [e|] eqn:Ee; [|vm_compute in Ee; discriminate].
+  destruct (hamiltonian_of false ex_pen 5 e) as [H|] eqn:EH.
+  - exists e, H. split; [reflexivity|]. vm_compute in Ee. injection Ee as <-. split; [|split; [exact EH|reflexivity]].
+    cbn. repeat constructor; cbn; intuition discriminate.
+  - exfalso. vm_compute in Ee. injection Ee as <-. vm_compute in EH. discriminate.
+Qed.
+Print Assumptions link_Enc_prepare_hamiltonian_nonvacuous.
